@@ -14,6 +14,8 @@ import PV.Spec.TableInv
 import PV.Model.Fold
 import PV.Model.B64filter
 import PV.Model.Tools
+import PV.Model.Reader
+import PV.Model.Io
 import PV.Spec.FirstOcc
 import PV.Spec.Base64
 /-
@@ -323,6 +325,59 @@ def tools (op : String) (args : List String) : String :=
     | _, _ => "bad-op"
   | _, _ => "bad-op"
 
+def intList (s : String) : Option (List Int) :=
+  if s == "-" then some [] else (s.splitOn ",").mapM String.toInt?
+
+def recsStr (ls : List (List UInt8)) : String :=
+  s!"ok {ls.length}" ++ String.join (ls.map (fun l => " " ++ hex l))
+
+/-- reader.lines <backing> <delim> <strip> <min_buffer> <sched> <how> <start> <hexdata>
+    `min_buffer` is FilePiece's argument: default_map_size_ = page * max(min_buffer / page + 1, 2), page = 4096. -/
+def reader (op : String) (args : List String) : String :=
+  match op, args with
+  | "lines", [backing, d, strip, minb, sched, how, start, h] =>
+    match unhex d, minb.toNat?, natList sched, start.toNat?, unhex h with
+    | some [dl], some mb, some sc, some st, some data =>
+      let page := 4096
+      let cap0 := page * max (mb / page + 1) 2
+      let stripCr := strip == "1" || how == "2"          -- LineIterator always strips
+      let res := if backing == "file" then PV.Reader.recordsMmap dl stripCr data page cap0 st
+                 else PV.Reader.recordsRead dl stripCr cap0 data sc
+      match res with
+      | some ls => recsStr ls
+      | none => "DIVERGED"
+    | _, _, _, _, _ => "bad-op"
+  | "spec.lines", [_, d, strip, _, _, how, start, h] =>
+    match unhex d, start.toNat?, unhex h with
+    | some [dl], some st, some data => recsStr (PV.Spec.Records.splitRecords dl (strip == "1" || how == "2") (data.drop st))
+    | _, _, _ => "bad-op"
+  | _, _ => "bad-op"
+
+def natsStr (l : List Nat) (pfx : String) : String := String.join (l.map (fun n => pfx ++ toString n ++ " "))
+
+def io (op : String) (args : List String) : String :=
+  match op, args with
+  | "write", [sched, h] =>
+    match intList sched, unhex h with
+    | some sc, some data => match PV.Io.writeOrThrow data sc with
+      | .ok d log => s!"ok {hex d} | {natsStr log "w"}"
+      | .err d log => s!"ERR:errno {hex d} | {natsStr log "w"}"
+      | .diverged => "DIVERGED"
+    | _, _ => "bad-op"
+  | rd, [sched, amount, h] =>
+    match intList sched, amount.toNat?, unhex h with
+    | some sc, some am, some data =>
+      let r := if rd == "readorthrow" then PV.Io.readOrThrow am data sc
+               else if rd == "readoreof" then PV.Io.readOrEOF am data sc
+               else PV.Io.partialReadOnce am data sc
+      match r with
+      | .ok g log => s!"ok {hex g} | {natsStr log "r"}"
+      | .eof log => s!"ERR:eof - | {natsStr log "r"}"
+      | .err log => s!"ERR:errno - | {natsStr log "r"}"
+      | .diverged => "DIVERGED"
+    | _, _, _ => "bad-op"
+  | _, _ => "bad-op"
+
 def dispatch (line : String) : String :=
   match words line with
   | [] => "bad-op"
@@ -336,6 +391,9 @@ def dispatch (line : String) : String :=
     | ["fold", op] => fold op args
     | ["b64f", op] => b64f op args
     | ["tools", op] => tools op args
+    | ["reader", op] => reader op args
+    | ["reader", "spec", op] => reader ("spec." ++ op) args
+    | ["io", op] => io op args
     | ["tools", "spec", op] => tools ("spec." ++ op) args
     | ["murmur", "spec", op] => murmur ("spec." ++ op) args
     | ["fields", op] => fields op args
